@@ -100,10 +100,30 @@ class ManagerModel:
         self.options = {k: list(vals) for k, vals in self.optmodel}
         self.tasks = model_product(self.optmodel)
 
+    def describe(self):
+        """kwargs() in words (no object addresses): for logs and messages."""
+        return {k: (vals[0] if bare is True else
+                    list(vals) if bare is False else f"{bare}{list(vals)}")
+                for k, bare, vals in self.optspec}
+
     def kwargs(self):
+        """Keyword arguments for from_cartesian_product; `bare` is True (the
+        single value itself), False (a list) or the name of another container
+        holding the same values in the same order."""
         kw = {}
         for k, bare, vals in self.optspec:
-            kw[k] = vals[0] if bare else list(vals)
+            if bare is True:
+                kw[k] = vals[0]
+            elif bare == "tuple":
+                kw[k] = tuple(vals)
+            elif bare == "range":
+                kw[k] = range(vals[0], vals[0] + len(vals))
+            elif bare == "dict_keys":
+                kw[k] = {v: None for v in vals}.keys()
+            elif bare == "generator":
+                kw[k] = (v for v in list(vals))
+            else:
+                kw[k] = list(vals)
         return kw
 
 
@@ -174,7 +194,18 @@ def gen_optspec(cs, lab):
                 vals.append(v)
             if len(vals) == nv:
                 break
-        spec.append((key, False, vals))
+        # the same values in another ordered container
+        cont = cs.weighted(f"{lab}.o{j}.container",
+                           [(False, 12), ("tuple", 3), ("dict_keys", 1),
+                            ("generator", 1), ("range", 2)])
+        if cont == "range" and not (
+                all(type(v) is int for v in vals) and
+                vals == list(range(vals[0], vals[0] + len(vals)))):
+            cont = "tuple"
+        if cont == "dict_keys" and len({(v == v, v) for v in vals}) != \
+                len(vals):
+            cont = False
+        spec.append((key, cont, vals))
     return spec
 
 
@@ -357,10 +388,19 @@ def sequential_part(cs, log, ctx, hyruns, managers):
             via = cs.choice("via", ["json", "deepcopy", "json_indent"])
             d = opm.to_dict()
             if via == "deepcopy":
-                d2 = copy.deepcopy(d)
+                try:
+                    d2 = copy.deepcopy(d)
+                except Exception:
+                    d2 = dict(d)     # holds something that cannot be copied
             else:
-                d2 = json.loads(json.dumps(d, indent=4 if via == "json_indent"
-                                           else None))
+                try:
+                    d2 = json.loads(json.dumps(
+                        d, indent=4 if via == "json_indent" else None))
+                except Exception as e:
+                    raise Violation("json_roundtrip_failed",
+                                    f"manager {idx} built from "
+                                    f"{short(mm.describe())}: to_dict() cannot "
+                                    f"go through JSON: {e!r}", "roundtrip")
             names = dict(hyruns._DICT_KEYNAMES)
             for need in ("name", "tasks", names["context_name"],
                          names["manager_options_name"]):
@@ -473,7 +513,7 @@ def run(cs, log, ctx):
                 if klass == "faulty" else 0
             log.ev("config", nbatch, wait_secs, nchunks, klass, plan, nsites,
                    starts, backoff, bad_worker, dups, crash_rate, delay_rate,
-                   budget, io_rate, [m.kwargs() for m in mm],
+                   budget, io_rate, [m.describe() for m in mm],
                    [m.context for m in mm])
         ctx.hit("class." + klass)
 
@@ -492,19 +532,19 @@ def run(cs, log, ctx):
                     else:
                         pm = ManagerModel(m.name, m.context,
                                           gen_optspec(cs, f"prev{h}"))
-                    log.ev("rebuild", mi, pm.kwargs())
+                    log.ev("rebuild", mi, pm.describe())
                     log.kind("rebuild")
                     try:
-                        opm.from_cartesian_product(**copy.deepcopy(pm.kwargs()))
+                        opm.from_cartesian_product(**pm.kwargs())
                     except Exception as e:
                         raise Violation("from_cartesian_product_raised",
-                                        f"{pm.kwargs()} raised {e!r}", "build")
+                                        f"{pm.describe()} raised {e!r}", "build")
                     why = same_manager(opm, pm)
                     if why:
                         raise Violation(
                             "enumeration_wrong",
                             f"build #{h + 1} on the same manager with "
-                            f"{pm.kwargs()}: {why}: "
+                            f"{pm.describe()}: {why}: "
                             f"{short(plain(list(opm.tasks)), 300)}", "rebuild")
                     ctx.hit("probe.manager_rebuilt")
                     for (dm, dmm, how) in derived:
@@ -537,10 +577,10 @@ def run(cs, log, ctx):
                             f"{e!r} under key names "
                             f"{dict(hyruns._DICT_KEYNAMES)}", "rebuild")
             try:
-                opm.from_cartesian_product(**copy.deepcopy(m.kwargs()))
+                opm.from_cartesian_product(**m.kwargs())
             except Exception as e:
                 raise Violation("from_cartesian_product_raised",
-                                f"{m.kwargs()} raised {e!r}", "build")
+                                f"{m.describe()} raised {e!r}", "build")
             for (dm, dmm, how) in derived:
                 why = same_manager(dm, dmm)
                 if why:
@@ -552,7 +592,7 @@ def run(cs, log, ctx):
             why = same_manager(opm, m)
             if why:
                 raise Violation("enumeration_wrong",
-                                f"from_cartesian_product({m.kwargs()}): {why}: "
+                                f"from_cartesian_product({m.describe()}): {why}: "
                                 f"{short(plain(list(opm.tasks)), 300)}", "build")
             managers.append((opm, m))
         with cs.span("keynames2"):
@@ -580,8 +620,12 @@ def run(cs, log, ctx):
                                  "build", "mf")
 
         # userspace buffer size: the save reaches the file in ~nchunks pieces
-        biggest = max(len(json.dumps(o.to_dict(), indent=4))
-                      for o, _ in managers)
+        try:
+            biggest = max(len(json.dumps(o.to_dict(), indent=4))
+                          for o, _ in managers)
+        except Exception as e:
+            raise Violation("json_roundtrip_failed", "to_dict() of a manager "
+                            f"cannot go through JSON: {e!r}", "build")
         bufsize = max(1, -(-biggest // nchunks))
         log.ev("bufsize", bufsize, biggest)
 
